@@ -19,6 +19,8 @@ def run(ck, build):
     ck.not_decided += ["agreement with other implementations as values (no value is ever computed); the transcription of the specification in tj/mode.py and tj/asmx.py is trusted",
                        "gcc builds; shared vs static objects (same source; objects not compared)", "alignment/endianness independence of buffer accesses is C06's R-BYTEWISE"]
     ck.assume("setup/absorb/generate_tag/permutation are functions of their arguments only (C19: no hidden state)")
+    if modecommon.nostate_rule(ck, build, "R-C02-NOSTATE", ("aead",), "the six AEAD entry points"):
+        return
     mod, fns, n = modecommon.run_mode(ck, build, ("aead",), RM)
     nc = 0
     for ks in asmsrc.KEYSIZES:
